@@ -420,6 +420,8 @@ class Replayer:
             return self.ref[key]
         # the reference world is built under the default tolerance and switched afterwards, like the world under test:
         # objects capture tolerance-derived defaults (eps_proj_physical = atol / 10) when they are constructed
+        from quara.settings import Settings
+        prev = Settings.get_atol()          # the world under test keeps ITS tolerance: computing a reference must not reset it
         set_atol(False)
         try:
             w = World(self.family)
@@ -431,7 +433,7 @@ class Replayer:
         except Exception as e:
             val = "EXC:" + type(e).__name__
         finally:
-            set_atol(False)
+            Settings.set_atol(prev)
         self.ref[key] = val
         return val
 
